@@ -28,7 +28,8 @@ TASK_WEIGHTS = {
 }
 
 ALL_FAULTS = ("solver_raise", "solver_badshape", "solver_scribble", "solver_nan",
-              "singular", "unknown_term",
+              "singular", "unknown_term", "bad_tuple", "foreign_term", "explicit_badrhs",
+              "algebra_mismatch", "eval_raises",
               "radial_periodic", "bad_shape_assign", "partial_utility",
               "update_mismatch")
 
@@ -807,7 +808,7 @@ class Algebra(Task):
         elif u < 0.74:
             op = {"k": "unop", "out": out, "a": {"op": rng.choice(("neg", "abs")), "x": x}}
         elif u < 0.92:
-            f = rng.choice(sorted(PURE_FUNCS))
+            f = rng.choice(sorted(k for k in PURE_FUNCS if k != "boom"))
             n = PURE_FUNCS[f][0]
             args = [x]
             for _ in range(n - 1):
@@ -991,13 +992,30 @@ class FaultInjector(Task):
         nd = g.nd_of_mesh(m)
         sides = [s for s in A.SIDES if A.SIDE_AXIS[s] < nd]
         if kind == "bad_shape_assign":
+            wv = g.pick("w")
+            if wv and rng.random() < 0.3:
+                return [{"k": "view_write", "a": {"w": wv, "wrong_shape": True}}]
             if rng.random() < 0.5:
                 return [{"k": "val_edit", "a": {"v": v, "how": "badshape"}}]
             return [{"k": "bc_badshape", "a": {"b": b, "side": rng.choice(sides),
                                                "coef": rng.choice("abc")}}]
         if kind == "partial_utility":
             return [{"k": "bc_util", "a": {"b": b, "side": rng.choice(sides),
-                                           "fn": "fixedValue", "wrong_shape": True}}]
+                                           "fn": rng.choice(("fixedValue", "fixedGradient")),
+                                           "wrong_shape": True}}]
+        if kind == "explicit_badrhs":
+            return [{"k": "explicit", "out": g.fresh("v"), "outb": g.fresh("b"),
+                     "a": {"v": v, "dt": 0.01, "rhs": {"badsize": True}}}]
+        if kind == "algebra_mismatch":
+            other = g.pick("v", lambda e: e.meta["mesh"] != m)
+            if other is None:
+                return []
+            l, r = (v, other) if rng.random() < 0.5 else (other, v)
+            return [{"k": "binop", "out": g.fresh("v"), "outb": g.fresh("b"),
+                     "a": {"op": rng.choice(ARITH), "l": {"v": l}, "r": {"v": r}, "fault": True}}]
+        if kind == "eval_raises":
+            return [{"k": "eval", "out": g.fresh("v"), "outb": g.fresh("b"),
+                     "a": {"fn": rng.choice(("funceval", "celleval")), "f": "boom", "args": [v]}}]
         if kind == "update_mismatch":
             src = g.pick("v", lambda e: e.meta["mesh"] != m)
             if src is None:
@@ -1044,6 +1062,19 @@ class FaultInjector(Task):
             mode = "ext_nan"
         elif kind == "unknown_term":
             specs.insert(rng.randrange(len(specs) + 1), {"bad": "ndim3"})
+        elif kind == "bad_tuple":
+            mr = g.pick("t", lambda e: e.meta.get("mesh") == m and e.meta["kind"] == "MR")
+            if mr is None:
+                mr = g.fresh("t")
+                ops.append({"k": "build", "out": mr,
+                            "a": {"fn": "transientTerm", "args": [v, 0.1, 1.0]}})
+            specs.insert(rng.randrange(len(specs) + 1),
+                         {"bad": rng.choice(("tuple_swapped", "tuple3")), "t": mr})
+        elif kind == "foreign_term":
+            ft = g.pick("t", lambda e: e.meta.get("mesh") != m and e.meta["kind"] in ("M", "R", "MR"))
+            if ft is None:
+                return []
+            specs.insert(rng.randrange(len(specs) + 1), {"t": ft, "foreign": True})
         elif kind == "singular":
             D = g.fresh("f")
             ops.append({"k": "face", "out": D, "a": {"m": m, "scalar": 1.0}})
